@@ -22,8 +22,10 @@ def check(run):
         combcheck.run_group(run, GROUP, (1, 2, 3, 4, 5), 1 << 14, big=True, wide=(8, 13, 16, 30))
     if run.tier == 'quick':
         combcheck.run_x(run, GROUP, (1, 2, 3), 256)
+        combcheck.run_wide(run, GROUP, [(32,), (33,), (64,), (16, 48)], 2, 40)
     else:
         combcheck.run_x(run, GROUP, (1, 2, 3, 4, 5), 1 << 12)
+        combcheck.run_wide(run, GROUP, [(31,), (32,), (33,), (47,), (64,), (16, 48), (8, 33), (32, 64)], 12, 200)
     run.assumptions += ['values below 2^30 (TLC integers); multiplier operands at most 15 bits',
                         'Div/Mod/SignedDiv are not judged for a zero divisor; rotations not judged for amounts above the data width']
 
